@@ -57,3 +57,72 @@ func vpUnits(ls []int) [][]int {
 	}
 	return r
 }
+
+var vpAssumeSkeletons = [][][]int{
+	{{2, 3}, {2, 3}, {1, 2, 3}},
+	{{1, 2}, {2, 3}, {1, 3}, {1, 2, 3}},
+	{{1, 2, 3}, {1, 2, 3}, {2, 3, 4}, {1, 4}},
+}
+
+// VP_C10_assume_skeleton: skeletons with ternary clauses (so that conflicts
+// learn units and clauses during a round), symbolic signs, then rounds of
+// symbolic assumptions; every initial phase assignment when steer=1.
+func VP_C10_assume_skeleton() {
+	zzvp.IntMode(true)
+	var sk [][]int
+	ns := len(vpAssumeSkeletons)
+	k := zzvp.Choose("skeleton", zzvp.Param("nskel", ns+len(vpCDCLSkeletons)))
+	if k < ns {
+		sk = vpAssumeSkeletons[k]
+	} else {
+		sk = vpCDCLSkeletons[k-ns]
+	}
+	maxSym := zzvp.Param("maxsigns", 8)
+	n, cnt := 0, 0
+	var cnf, orig [][]int
+	for _, c := range sk {
+		a, b := make([]int, len(c)), make([]int, len(c))
+		for i, l := range c {
+			if v := vpAbs(l); v > n {
+				n = v
+			}
+			x := l
+			if cnt < maxSym {
+				x = zzvp.Ite(zzvp.Bool("flip"), -l, l)
+				cnt++
+			}
+			a[i], b[i] = x, x
+		}
+		cnf, orig = append(cnf, a), append(orig, b)
+	}
+	s := New(ParseSliceNb(cnf, n))
+	vpSteer(s)
+	rounds := zzvp.Choose("rounds", zzvp.Param("rounds", 2)) + 1
+	for r := 0; r < rounds; r++ {
+		ka := zzvp.Choose("ka", zzvp.Param("ka", 2)+1)
+		as := make([]int, ka)
+		lits := make([]Lit, ka)
+		for i := range as {
+			a := zzvp.Int("a", -n, n)
+			zzvp.Assume(a != 0)
+			as[i] = a
+			lits[i] = IntToLit(int32(a))
+		}
+		full := append(append([][]int{}, orig...), vpUnits(as)...)
+		spec := vpCNFSat(full, n)
+		s.Assume(lits)
+		st := s.Solve()
+		zzvp.Assert(st == Sat || st == Unsat, "Solve under assumptions answers Sat or Unsat")
+		if st == Sat {
+			zzvp.Reach("sat")
+			zzvp.Assert(spec, "answered Sat but formula and current assumptions are unsatisfiable")
+			zzvp.Assert(vpModelHolds(full, s.Model()), "model violates the formula or a current assumption")
+		} else {
+			zzvp.Reach("unsat")
+			zzvp.Assert(zzvp.Not(spec), "answered Unsat but formula and current assumptions are satisfiable")
+		}
+		if s.Stats.NbUnitLearned > 0 {
+			zzvp.Reach("unit-learned")
+		}
+	}
+}
